@@ -22,8 +22,32 @@ def svd_cases(draw, tier, size=None):
     m, n = draw(st.integers(lo, hi)), draw(st.integers(lo, hi))
     m, n = draw(gen.maybe_high_aspect(m, n))
     k = min(m, n)
-    src = draw(st.sampled_from(["spectrum", "spectrum", "spectrum", "pattern", "zero", "hermitian", "diagonal"]))
-    if src == "hermitian":
+    src = draw(st.sampled_from(["spectrum", "spectrum", "spectrum", "pattern", "zero", "hermitian", "diagonal",
+                                "one_signed", "near_coordinate_column"]))
+    if src == "one_signed":
+        # every real component of every entry has the same sign (negated non-negative data, or all positive)
+        A = (np.abs(draw(gen.qarray(m, n, draw(st.sampled_from(["generic", "int"]))))[0]) + 0.125) * draw(st.sampled_from([-1.0, -1.0, 1.0]))
+        kind = "pattern:one_signed"
+        src = "done"
+    elif src == "near_coordinate_column":
+        # one more row than columns (or the transpose) and a column that is a coordinate vector up to 1e-13 .. 1e-8:
+        # the single completion column of the full factor is nearly a coordinate vector's complement
+        n = max(1, min(n, 6))
+        m = n + 1
+        k = n
+        A = draw(gen.qarray(m, n, "generic"))[0].copy()
+        j = draw(st.integers(0, m - 1))
+        d_ = draw(st.sampled_from([1e-13, 1e-12, 1e-10, 1e-9, 1e-8]))
+        A[:, 0] = A[:, 0] * d_
+        A[j, 0] = [draw(st.sampled_from([1.0, 2.0, 0.5])), 0.0, 0.0, 0.0]
+        if draw(st.booleans()):
+            A = np.ascontiguousarray(ref.conjT(A))
+            m, n = n, m
+        kind = "near_coordinate_column"
+        src = "done"
+    if src == "done":
+        pass
+    elif src == "hermitian":
         # exactly Hermitian with eigenvalues of both signs and distinct moduli (sigma_i = |lambda_i|, simple)
         m = n
         k = n
